@@ -30,10 +30,12 @@ Fixpoint instr_slines (legacy sg : bool) (m : N) (line codeline : Z) (code : lis
   end.
 
 (* ---------- a parser positioned on a token list ---------- *)
+Section WithMeta.
+Variable mt : pmeta.      (* the metadata gathered so far: only whole-line comments change it *)
 Definition ppos (l : list token) (line codeline : Z) (cur : sline) (lines : list sline) (e : bool) : parser :=
   match l with
-  | t :: r => mkP r t false line codeline false cur (mkPM [] [] []) e lines predefined []
-  | [] => mkP [] tEOF true line codeline false cur (mkPM [] [] []) e lines predefined []
+  | t :: r => mkP r t false line codeline false cur mt e lines predefined []
+  | [] => mkP [] tEOF true line codeline false cur mt e lines predefined []
   end.
 Lemma pnext_ppos t t2 r line codeline cur lines e :
   pnext (ppos (t :: t2 :: r) line codeline cur lines e) =
@@ -261,6 +263,8 @@ Proof.
     reflexivity.
 Qed.
 
+End WithMeta.
+
 Lemma parse_run_mono f : forall st p r k, parse_run f st p = Some r -> parse_run (f + k) st p = Some r.
 Proof.
   induction f as [|f IH]; intros st p r k H; [discriminate|].
@@ -300,9 +304,9 @@ Proof.
       destruct (flat_map (instr_toks true sg m) code ++ dir_toks (s2t "END") start ++ [tEOF]) as [|x y] eqn:E0.
       { destruct (flat_map (instr_toks true sg m) code); discriminate E0. }
       change (pnext (mkP (x :: y) (mkT tokError []) false 1 0 false (empty_sline 1) (mkPM [] [] []) false [] predefined []))
-        with (ppos (x :: y) 1 0 (empty_sline 1) [] false).
+        with (ppos (mkPM [] [] []) (x :: y) 1 0 (empty_sline 1) [] false).
       rewrite <- E0. unfold dir_toks at 1. cbn [app].
-      destruct (instr_lines_run true sg m code (mkT tokText (s2t "END")) [num_tok (Z.to_N start); nl_tok; tEOF] 1 0 (empty_sline 1) [] 5) as [cur' Hc].
+      destruct (instr_lines_run (mkPM [] [] []) true sg m code (mkT tokText (s2t "END")) [num_tok (Z.to_N start); nl_tok; tEOF] 1 0 (empty_sline 1) [] 5) as [cur' Hc].
       fold n in Hc. rewrite Hc. cbn [app].
       change (mkT tokText (s2t "END") :: [num_tok (Z.to_N start); nl_tok; tEOF]) with (dir_toks (s2t "END") start ++ tEOF :: []).
       change 5%nat with (4 + 1)%nat. rewrite dir_line_run by reflexivity.
@@ -311,12 +315,12 @@ Proof.
       unfold dir_toks at 1. cbn [app].
       change (pnext (mkP (mkT tokText (s2t "ORG") :: num_tok (Z.to_N start) :: nl_tok :: flat_map (instr_toks false sg m) code ++ [tEOF])
                          (mkT tokError []) false 1 0 false (empty_sline 1) (mkPM [] [] []) false [] predefined []))
-        with (ppos (dir_toks (s2t "ORG") start ++ flat_map (instr_toks false sg m) code ++ [tEOF]) 1 0 (empty_sline 1) [] false).
+        with (ppos (mkPM [] [] []) (dir_toks (s2t "ORG") start ++ flat_map (instr_toks false sg m) code ++ [tEOF]) 1 0 (empty_sline 1) [] false).
       replace (8 * n + 5)%nat with (4 + (8 * n + 1))%nat by lia.
       destruct (flat_map (instr_toks false sg m) code ++ [tEOF]) as [|x y] eqn:E0.
       { destruct (flat_map (instr_toks false sg m) code); discriminate E0. }
       rewrite dir_line_run by reflexivity. rewrite <- E0.
-      destruct (instr_lines_run false sg m code tEOF [] (1 + 1)%Z 0 (dir_sline (s2t "ORG") 1 start) ([] ++ [dir_sline (s2t "ORG") 1 start]) 1) as [cur' Hc].
+      destruct (instr_lines_run (mkPM [] [] []) false sg m code tEOF [] (1 + 1)%Z 0 (dir_sline (s2t "ORG") 1 start) ([] ++ [dir_sline (s2t "ORG") 1 start]) 1) as [cur' Hc].
       fold n in Hc. change (lower_is (s2t "ORG") "end") with false. rewrite Hc.
       eexists. split; [reflexivity|]. cbn. repeat split; reflexivity. }
   destruct E as [pf [E1 [E2 [E3 [E4 E5]]]]].
